@@ -11,6 +11,7 @@ import AaVerif.Prep
 import AaVerif.Directive
 import AaVerif.Props.C08
 import AaVerif.Aa.Resolve
+import AaVerif.Aa.FromLog
 import AaVerif.Generated.LogRx
 open Proto
 
@@ -245,12 +246,28 @@ def suiteClosed (f : List String) : String :=
   | [_] => "ok\t"
   | _ => "err\tbad-op"
 
+def decLog (s : String) : Aa.Log :=
+  (unescList s).map (fun kv =>
+    let k := kv.takeWhile (· != '=')
+    (k, kv.drop (k.length + 1)))
+
+def suiteFromLog (f : List String) : String :=
+  let l := match f with | [x] => decLog x | _ => []
+  let flags : List String :=
+    (if l.get "error" == "-2".toList then ["mediate_deleted"] else []) ++
+    (if l.get "error" == "-13".toList && !(Aa.isInfixC "namespace creation restricted".toList (l.get "info")) &&
+        Aa.isInfixC "disconnected path".toList (l.get "info") then ["attach_disconnected"] else [])
+  match Aa.addRule T Generated.maskToAccess l with
+  | some rs => "ok\t" ++ esc (String.intercalate "," flags).toList ++ "\t" ++ Aa.encodeRules (rs.map some)
+  | none => "panic"
+
 def main (args : List String) : IO Unit := do
   match args with
   | ["builder"] => serve suiteBuilder
   | ["setflags"] => serve suiteSetflags
   | ["filter"] => serve suiteFilter
   | ["layout"] => serve suiteLayout
+  | ["fromlog"] => serve suiteFromLog
   | ["closed"] => serve suiteClosed
   | ["dbusspec"] => serve suiteDbusSpec
   | ["stackclean"] => serve suiteStackClean
